@@ -92,8 +92,8 @@ class EngineC08(HistEngine):
 
         def reg_ops(fs):
             for f in fs:
-                if ch.chance(1, 5, "badfirst"):
-                    ops.append(dict(gen_call.CallGen.failing_registration(f), op="add_sub", inst=ch.draw(len(insts), "reginst"), expect_fail=True))
+                if ch.chance(1, 4, "badfirst"):
+                    ops.append(dict(gen_call.CallGen.failing_registration(f, ch.draw(4, "badvariant")), op="add_sub", inst=ch.draw(len(insts), "reginst"), expect_fail=True))
                 ops.append(dict(gen_call.CallGen.registration(f), op="add_sub", inst=ch.draw(len(insts), "reginst")))
         # nested callees need their callee first: registering in generation order guarantees it only inside one group;
         # across groups a late callee of an early caller makes the early registration fail -> keep generation order globally
@@ -120,6 +120,16 @@ class EngineC08(HistEngine):
             if ch.chance(1, 5, "interleave"):
                 ops.append({"op": "stmt", "inst": ch.draw(len(insts), "winst"), "code": ch.choice(WARMUP, "warm2")})
         names = sorted({n for c in callers for n in c["uses"]} | {f["name"] for f in funcs} | set(BUNDLED_NAMES))
+        if ch.chance(1, 6, "boundary"):
+            # the never-reset temporary counter right below a digit roll-over (9/10, 99/100, 999/1000) when the callers are compiled
+            target = ch.choice([9, 99, 999], "btarget") - ch.draw(3, "bbelow")
+            ops = [dict(gen_call.CallGen.registration(f), op="add_sub", inst=0) for f in funcs]
+            ops += [{"op": "insn", "inst": 0, "name": "warm", "parts": [WARMUP_BIG], "via": "transform_insn"}] * (target // 8)
+            ops += [{"op": "insn", "inst": 0, "name": "warm", "parts": [WARMUP_ONE], "via": "transform_insn"}] * (target % 8)
+            first = ch.draw(len(callers), "bfirst")
+            for ci in [first] + [i for i in range(len(callers)) if i != first]:
+                ops.append({"op": "stmt", "inst": 0, "code": callers[ci]["text"], "caller": ci})
+            insts = [fmt0]
         if ch.chance(1, 4, "directed"):
             # directed history: place the instance's temporary counter exactly where a name written by a callee body
             # would coincide with a live temporary of a caller (the counter is never reset, so every value is
